@@ -251,7 +251,7 @@ CHECKS = {
         ref="7 (C06)",
         note="The offset and reversal laws are also proved through lambda selection for the symmetric V-curve smoother (C06_vcurve_shift, "
              "C06_vcurve_rev: same lambda, curve moved by the constant / reversed) and the offset law through the GCV scan over the "
-             "lambda grid for fixed weights (C06_gcv_scan_shift); through the asymmetric reweighting both laws are proved for every run that "
+             "lambda grid and the whole non-robust GCV smoother incl. its zeroed missing cells (C06_gcv_scan_shift, C06_gcv_nonrobust_shift); through the asymmetric reweighting both laws are proved for every run that "
              "settles (C06_expectile_shift / _rev: the settled curve is the unique expectile curve, which moves with the data). "
              "Partial: the lifting of the reversal law through "
              "GCV, of both laws through asymmetric runs that use up their 10 passes (its iteration starts from the zero curve, which is not shift-invariant) and "
